@@ -15,6 +15,7 @@ const MaxPaths = 20000
 
 // Loop is a natural loop of a function.
 type Loop struct {
+	Fn     *ssa.Function
 	Index  int
 	Header *ssa.BasicBlock
 	Body   map[*ssa.BasicBlock]bool // includes header
@@ -55,7 +56,7 @@ func Info(fn *ssa.Function) *FuncInfo {
 			if h.Dominates(u) {
 				l := fi.header[h]
 				if l == nil {
-					l = &Loop{Header: h, Body: map[*ssa.BasicBlock]bool{h: true}}
+					l = &Loop{Fn: fn, Header: h, Body: map[*ssa.BasicBlock]bool{h: true}}
 					fi.header[h] = l
 					fi.Loops = append(fi.Loops, l)
 				}
@@ -242,14 +243,31 @@ func (k EndKind) String() string {
 // Path is one acyclic path of a function with its facts.
 type Path struct {
 	Fn     *ssa.Function
-	Blocks []*ssa.BasicBlock
+	Blocks []*ssa.BasicBlock // every block visited, including those of inlined helpers, in order of entry
 	Facts  []Fact
 	End    EndKind
 	Latch  *ssa.BasicBlock // target header for EndLatch
 	Ret    *ssa.Return
-	ctx    *Ctx
+	ctx    *Ctx                    // context of the root function
+	ctxs   map[*ssa.Function]*Ctx  // context of every function activated on the path (root and inlined helpers)
+	steps  []step                  // instruction ranges in execution order
+	seen   map[*ssa.BasicBlock]bool
 	busy   map[string]bool
 }
+
+// step is a range of instructions of one block, executed contiguously.
+type step struct {
+	b        *ssa.BasicBlock
+	from, to int
+}
+
+// Inlineable tells which statically called functions are spliced into their callers' paths: set by
+// the loader to "in-module, unexported, has a body, and not one of the frozen anchor names" — i.e.
+// helper functions that did not exist when the rules were confirmed (extracted by a refactoring).
+var Inlineable = func(*ssa.Function) bool { return false }
+
+// MaxInlineDepth bounds the nesting of inlined helpers.
+const MaxInlineDepth = 3
 
 // Ctx evaluates values to terms along one path.
 type Ctx struct {
@@ -260,6 +278,8 @@ type Ctx struct {
 	memo  map[ssa.Value]*Term
 	stack []*ssa.Phi // loop phis being expanded
 	detached bool
+	bind  map[ssa.Value]*Term // parameters / free variables of an inlined helper, bound to the caller's terms
+	tag   string               // name prefix for loop-carried values and cells of an inlined helper
 }
 
 func newCtx(fi *FuncInfo) *Ctx {
@@ -278,11 +298,33 @@ func (c *Ctx) clone() *Ctx {
 	for k, v := range c.memo {
 		n.memo[k] = v
 	}
+	n.bind, n.tag = c.bind, c.tag
 	return n
 }
 
-// Term evaluates v on this path.
-func (p *Path) Term(v ssa.Value) *Term { return p.ctx.term(v) }
+// Term evaluates v on this path (in the activation of the function v belongs to).
+func (p *Path) Term(v ssa.Value) *Term { return p.ctxFor(v).term(v) }
+
+func valueFunc(v ssa.Value) *ssa.Function {
+	switch x := v.(type) {
+	case *ssa.Parameter:
+		return x.Parent()
+	case *ssa.FreeVar:
+		return x.Parent()
+	case ssa.Instruction:
+		return x.Parent()
+	}
+	return nil
+}
+
+func (p *Path) ctxFor(v ssa.Value) *Ctx {
+	if fn := valueFunc(v); fn != nil && p.ctxs != nil {
+		if c, ok := p.ctxs[fn]; ok {
+			return c
+		}
+	}
+	return p.ctx
+}
 
 // DetachedTerm evaluates v without any path information (phis become unions).
 func DetachedTerm(fn *ssa.Function, v ssa.Value) *Term {
@@ -327,7 +369,12 @@ func typeName(t types.Type) string { return Short(t.String()) }
 func (c *Ctx) term1(v ssa.Value) *Term {
 	fn := c.fi.Fn
 	if l, ok := c.fi.ivOf[v]; ok {
-		return mk("iv", fmt.Sprintf("iv#%d", l.Index), v)
+		return mk("iv", fmt.Sprintf("iv#%s%d", c.tag, l.Index), v)
+	}
+	if c.bind != nil {
+		if t, ok := c.bind[v]; ok {
+			return t
+		}
 	}
 	switch v := v.(type) {
 	case *ssa.Parameter:
@@ -348,7 +395,7 @@ func (c *Ctx) term1(v ssa.Value) *Term {
 	case *ssa.Builtin:
 		return mk("func", "builtin."+v.Name(), v)
 	case *ssa.Alloc:
-		return mk("alloc", fmt.Sprintf("#%d", c.fi.allocN[v]), v)
+		return mk("alloc", fmt.Sprintf("%s#%d", c.tag, c.fi.allocN[v]), v)
 	case *ssa.FieldAddr:
 		st := v.X.Type().Underlying().(*types.Pointer).Elem().Underlying().(*types.Struct)
 		return mk("fieldaddr", st.Field(v.Field).Name(), v, c.term(v.X))
@@ -390,6 +437,9 @@ func (c *Ctx) term1(v ssa.Value) *Term {
 	case *ssa.Call:
 		return c.callTerm(v)
 	case *ssa.Extract:
+		if tt := c.term(v.Tuple); tt.Op == "tuple" && v.Index < len(tt.Args) {
+			return tt.Args[v.Index]
+		}
 		return mk("extract", fmt.Sprintf("#%d", v.Index), v, c.term(v.Tuple))
 	case *ssa.Convert:
 		return mk("conv", typeName(v.Type()), v, c.term(v.X))
@@ -543,7 +593,7 @@ func (c *Ctx) phiTerm(v *ssa.Phi) *Term {
 		if len(backs) > 0 {
 			bt = unionOf(backs)
 		}
-		return mk("loopphi", c.fi.phiName(v), v, it, bt)
+		return mk("loopphi", strings.Replace(c.fi.phiName(v), "phi#", "phi#"+c.tag, 1), v, it, bt)
 	}
 	if !c.detached {
 		if p, ok := c.pred[b]; ok {
@@ -739,16 +789,85 @@ func condAtom(t *Term) (*Term, bool) {
 	return t, pol
 }
 
-// Enumerate returns all acyclic paths of fn. An error is returned when the cap is exceeded.
+// frame is one activation on the path: the root function or an inlined helper.
+type frame struct {
+	fn        *ssa.Function
+	ctx       *Ctx
+	parent    *frame
+	call      *ssa.Call // call site in the parent
+	contBlock *ssa.BasicBlock
+	contIdx   int
+	depth     int
+}
+
+func (f *frame) clone() *frame {
+	n := *f
+	n.ctx = f.ctx.clone()
+	return &n
+}
+
+func (f *frame) root() *frame {
+	for f.parent != nil {
+		f = f.parent
+	}
+	return f
+}
+
+func (f *frame) active(g *ssa.Function) bool {
+	for x := f; x != nil; x = x.parent {
+		if x.fn == g {
+			return true
+		}
+	}
+	return false
+}
+
+// walkState is the part of a path under construction that is shared by value between branches.
+type walkState struct {
+	blocks []*ssa.BasicBlock
+	facts  []Fact
+	steps  []step
+	done   []*Ctx // contexts of helper activations that already returned
+}
+
+func (st walkState) withStep(b *ssa.BasicBlock, from, to int) walkState {
+	if to > from {
+		st.steps = append(append([]step(nil), st.steps...), step{b, from, to})
+	}
+	return st
+}
+
+// Enumerate returns all acyclic paths of fn. Calls to Inlineable helpers are spliced in: their branch
+// facts, stores and results appear on the caller's path with parameters bound to the argument terms.
+// An error is returned when the cap is exceeded.
 func Enumerate(fn *ssa.Function) ([]*Path, error) {
 	if len(fn.Blocks) == 0 {
 		return nil, fmt.Errorf("%s has no body", FuncName(fn))
 	}
-	fi := Info(fn)
 	var out []*Path
 	var err error
-	var walk func(b *ssa.BasicBlock, from *ssa.BasicBlock, ctx *Ctx, blocks []*ssa.BasicBlock, facts []Fact)
-	walk = func(b *ssa.BasicBlock, from *ssa.BasicBlock, ctx *Ctx, blocks []*ssa.BasicBlock, facts []Fact) {
+	emit := func(fr *frame, st walkState, end EndKind, latch *ssa.BasicBlock, ret *ssa.Return) {
+		p := &Path{Fn: fn, Blocks: st.blocks, Facts: st.facts, End: end, Latch: latch, Ret: ret, steps: st.steps,
+			ctxs: map[*ssa.Function]*Ctx{}, seen: map[*ssa.BasicBlock]bool{}}
+		for _, c := range st.done {
+			p.ctxs[c.fi.Fn] = c
+		}
+		var chain []*frame
+		for x := fr; x != nil; x = x.parent {
+			chain = append(chain, x)
+		}
+		for i := len(chain) - 1; i >= 0; i-- {
+			p.ctxs[chain[i].fn] = chain[i].ctx
+		}
+		p.ctx = fr.root().ctx
+		for _, b := range st.blocks {
+			p.seen[b] = true
+		}
+		out = append(out, p)
+	}
+	var enter func(fr *frame, b, from *ssa.BasicBlock, st walkState)
+	var run func(fr *frame, b *ssa.BasicBlock, idx int, st walkState)
+	enter = func(fr *frame, b, from *ssa.BasicBlock, st walkState) {
 		if err != nil {
 			return
 		}
@@ -756,54 +875,135 @@ func Enumerate(fn *ssa.Function) ([]*Path, error) {
 			err = fmt.Errorf("%s: more than %d paths", FuncName(fn), MaxPaths)
 			return
 		}
-		if _, seen := ctx.pos[b]; seen {
-			out = append(out, &Path{Fn: fn, Blocks: blocks, Facts: facts, End: EndLatch, Latch: b, ctx: ctx})
+		if _, seen := fr.ctx.pos[b]; seen {
+			emit(fr, st, EndLatch, b, nil)
 			return
 		}
-		ctx = ctx.clone()
+		fr = fr.clone()
 		if from != nil {
-			ctx.pred[b] = from
+			fr.ctx.pred[b] = from
 		}
-		ctx.pos[b] = len(ctx.seq)
-		ctx.seq = append(ctx.seq, b)
-		blocks = append(append([]*ssa.BasicBlock(nil), blocks...), b)
-		last := b.Instrs[len(b.Instrs)-1]
-		switch in := last.(type) {
+		fr.ctx.pos[b] = len(fr.ctx.seq)
+		fr.ctx.seq = append(fr.ctx.seq, b)
+		st.blocks = append(append([]*ssa.BasicBlock(nil), st.blocks...), b)
+		run(fr, b, 0, st)
+	}
+	run = func(fr *frame, b *ssa.BasicBlock, idx int, st walkState) {
+		if err != nil {
+			return
+		}
+		// helper calls in the straight-line part
+		for i := idx; i < len(b.Instrs)-1; i++ {
+			call, ok := b.Instrs[i].(*ssa.Call)
+			if !ok {
+				continue
+			}
+			g, isFn := call.Call.Value.(*ssa.Function)
+			if !isFn || call.Call.IsInvoke() || len(g.Blocks) == 0 || fr.depth >= MaxInlineDepth || fr.active(g) || !Inlineable(g) {
+				continue
+			}
+			st2 := st.withStep(b, idx, i)
+			child := &frame{fn: g, ctx: newCtx(Info(g)), parent: fr, call: call, contBlock: b, contIdx: i + 1, depth: fr.depth + 1}
+			child.ctx.tag = FuncName(g) + ":"
+			child.ctx.bind = map[ssa.Value]*Term{}
+			for k, prm := range g.Params {
+				if k < len(call.Call.Args) {
+					child.ctx.bind[prm] = fr.ctx.term(call.Call.Args[k])
+				}
+			}
+			enter(child, g.Blocks[0], nil, st2)
+			return
+		}
+		last := len(b.Instrs) - 1
+		st = st.withStep(b, idx, last+1)
+		switch in := b.Instrs[last].(type) {
 		case *ssa.Return:
-			out = append(out, &Path{Fn: fn, Blocks: blocks, Facts: facts, End: EndReturn, Ret: in, ctx: ctx})
+			if fr.parent == nil {
+				emit(fr, st, EndReturn, nil, in)
+				return
+			}
+			// return into the caller: bind the call's value to the helper's result on this path
+			var res *Term
+			if len(in.Results) == 1 {
+				res = fr.ctx.term(in.Results[0])
+			} else {
+				ts := make([]*Term, len(in.Results))
+				for k, r := range in.Results {
+					ts[k] = fr.ctx.term(r)
+				}
+				res = mk("tuple", "", fr.call, ts...)
+			}
+			par := fr.parent.clone()
+			par.ctx.memo[fr.call] = res
+			st.done = append(append([]*Ctx(nil), st.done...), fr.ctx)
+			run(par, fr.contBlock, fr.contIdx, st)
 		case *ssa.Panic:
-			out = append(out, &Path{Fn: fn, Blocks: blocks, Facts: facts, End: EndPanic, ctx: ctx})
+			emit(fr, st, EndPanic, nil, nil)
 		case *ssa.Jump:
-			walk(b.Succs[0], b, ctx, blocks, facts)
+			enter(fr, b.Succs[0], b, st)
 		case *ssa.If:
-			ct := ctx.term(in.Cond)
+			ct := fr.ctx.term(in.Cond)
 			atom, pol := condAtom(ct)
-			if atom.Op == "const" && (atom.Name == "true" || atom.Name == "false") {
-				val := (atom.Name == "true") == pol
-				if val {
-					walk(b.Succs[0], b, ctx, blocks, facts)
+			if val, known := staticAtom(atom); known {
+				// statically decided (constants; nil tests of values that are nil / non-nil by construction,
+				// typically the result of an inlined helper): only the feasible edge is followed
+				if val == pol {
+					enter(fr, b.Succs[0], b, st)
 				} else {
-					walk(b.Succs[1], b, ctx, blocks, facts)
+					enter(fr, b.Succs[1], b, st)
 				}
 				return
 			}
 			for k, edge := range []bool{true, false} {
 				f := Fact{Atom: atom, Pol: pol == edge, Block: b}
-				if contradicts(facts, f) {
+				if contradicts(st.facts, f) {
 					continue
 				}
-				nf := append(append([]Fact(nil), facts...), f)
-				walk(b.Succs[k], b, ctx, blocks, nf)
+				st2 := st
+				st2.facts = append(append([]Fact(nil), st.facts...), f)
+				enter(fr, b.Succs[k], b, st2)
 			}
 		default:
-			out = append(out, &Path{Fn: fn, Blocks: blocks, Facts: facts, End: EndOther, ctx: ctx})
+			emit(fr, st, EndOther, nil, nil)
 		}
 	}
-	walk(fn.Blocks[0], nil, newCtx(fi), nil, nil)
+	enter(&frame{fn: fn, ctx: newCtx(Info(fn))}, fn.Blocks[0], nil, walkState{})
 	if err != nil {
 		return nil, err
 	}
 	return out, nil
+}
+
+// staticAtom evaluates atoms whose value does not depend on the input.
+func staticAtom(atom *Term) (val bool, known bool) {
+	if atom.Op == "const" && (atom.Name == "true" || atom.Name == "false") {
+		return atom.Name == "true", true
+	}
+	if atom.Op != "eq" || len(atom.Args) != 2 {
+		return false, false
+	}
+	a, b := atom.Args[0], atom.Args[1]
+	if a.Op == "const" && b.Op == "const" && !strings.HasPrefix(a.Name, "zero:") && !strings.HasPrefix(b.Name, "zero:") {
+		return a.Name == b.Name, true
+	}
+	var x *Term
+	switch {
+	case a.IsNil():
+		x = b
+	case b.IsNil():
+		x = a
+	default:
+		return false, false
+	}
+	switch {
+	case x.Op == "call" && NonNilErrorCalls[x.Name]:
+		return false, true
+	case x.Op == "load" && x.Args[0].Op == "global" && x.Val != nil && types.Identical(x.Val.Type(), types.Universe.Lookup("error").Type()):
+		return false, true // package-level sentinel error
+	case x.Op == "alloc" || x.Op == "closure" || x.Op == "make" && false:
+		return false, true // address of a local cell is never nil
+	}
+	return false, false
 }
 
 // contradicts tells whether adding f to facts is syntactically contradictory:
@@ -892,16 +1092,14 @@ func (p *Path) FactOn(atom string) (pol bool, ok bool) {
 }
 
 // InBlock tells whether the path passes through b.
-func (p *Path) InBlock(b *ssa.BasicBlock) bool {
-	_, ok := p.ctx.pos[b]
-	return ok
-}
+func (p *Path) InBlock(b *ssa.BasicBlock) bool { return p.seen[b] }
 
-// Instrs iterates the instructions along the path in order.
+// Instrs iterates the instructions along the path in execution order (inlined helper calls are
+// replaced by the helper's instructions).
 func (p *Path) Instrs(f func(ssa.Instruction)) {
-	for _, b := range p.Blocks {
-		for _, in := range b.Instrs {
-			f(in)
+	for _, s := range p.steps {
+		for i := s.from; i < s.to; i++ {
+			f(s.b.Instrs[i])
 		}
 	}
 }
@@ -1053,14 +1251,14 @@ func (p *Path) classifyErr(e *Term) (Outcome, *Term) {
 			}
 			// named result finalised by deferred closures that only overwrite it while it is nil:
 			// the final value is nil only if the value before the defers ran was nil.
-			if deferTakes(p.Fn, a) && deferredOnlyFillNil(p.Fn, a) {
+			if deferTakes(a.Parent(), a) && deferredOnlyFillNil(a.Parent(), a) {
 				last := onPath[len(onPath)-1]
-				return p.classifyErr(p.ctx.term(last.Val))
+				return p.classifyErr(p.Term(last.Val))
 			}
 			// accumulator: every store anywhere is cell = errors.Join(cell, ...): once non-nil, stays non-nil
-			if accumulatorCell(p.Fn, a) {
+			if accumulatorCell(a.Parent(), a) {
 				for _, st := range onPath {
-					if o, _ := p.classifyErr(p.ctx.term(st.Val)); o == Failure {
+					if o, _ := p.classifyErr(p.Term(st.Val)); o == Failure {
 						return Failure, nil
 					}
 				}
@@ -1115,10 +1313,14 @@ func (p *Path) LatchValue(phi *ssa.Phi) *Term {
 	if p.End != EndLatch || phi.Block() != p.Latch || len(p.Blocks) == 0 {
 		return nil
 	}
-	last := p.Blocks[len(p.Blocks)-1]
+	c := p.ctxFor(phi)
+	if len(c.seq) == 0 {
+		return nil
+	}
+	last := c.seq[len(c.seq)-1]
 	for i, pr := range p.Latch.Preds {
 		if pr == last {
-			return p.ctx.term(phi.Edges[i])
+			return c.term(phi.Edges[i])
 		}
 	}
 	return nil
@@ -1149,7 +1351,7 @@ func (p *Path) FieldStores(cell ssa.Value) map[string]*Term {
 			return
 		}
 		stt := fa.X.Type().Underlying().(*types.Pointer).Elem().Underlying().(*types.Struct)
-		out[stt.Field(fa.Field).Name()] = p.ctx.term(st.Val)
+		out[stt.Field(fa.Field).Name()] = p.Term(st.Val)
 	})
 	return out
 }
